@@ -116,8 +116,13 @@ def run_ctor(ctx, p):
         bad = bad32.astype(np.float64)
     d = dist(kind, bad)
     C = getattr(sm, cname)
-    arg = containers(form, good, bad if p.get('dtype') != 'float32' else bad32)
+    given_bad = bad if p.get('dtype') != 'float32' else bad32
+    if p.get('layout'):        # the same values held as a frozen / non-contiguous / Fortran-ordered array or nested lists of NumPy scalars
+        given_bad = gen.layout(given_bad, p['layout'])
+    arg = containers(form, good, given_bad)
     sig = dict(api=cname, form=form, defect=p['defect'])
+    if p.get('layout'):
+        sig['layout'] = p['layout']
     if p.get('dtype') == 'float32':
         sig['dtype'] = 'float32'
         if p['defect'] == 'none' or d <= BAND:
@@ -173,6 +178,9 @@ def run_pred(ctx, p):
     sig = dict(api=name, defect=p['defect'])
     if p.get('dtype') == 'float32':
         sig['dtype'] = 'float32'
+    if p.get('layout') and p['layout'] != 'npscalars':
+        given = gen.layout(given, p['layout'])
+        sig['layout'] = p['layout']
     try:
         r = f(given)
     except Exception as e:
@@ -224,6 +232,68 @@ def member_ok(cname, x):
     return True
 
 
+def dtype_array(p):
+    """a non-member whose defect only shows if the arithmetic is done in a wider type than the array's own: integer matrices whose
+    products wrap around to the identity, complex-orthogonal matrices (R R^T = I, det = 1, entries of magnitude > 1), unsigned
+    'skew' matrices whose sum with the transpose wraps to zero"""
+    n, k = p['n'], p['defect']
+    if k == 'int_wrap':
+        dt = np.dtype(p['itype'])
+        x = np.iinfo(dt).max if dt.kind == 'i' else (np.iinfo(dt).max // 2 + 2)        # x * x = 1 modulo 2**bits
+        M = np.eye(n, dtype=dt)
+        for j in p['where']:
+            M[j, j] = x
+        return M
+    if k == 'complex_orthogonal':
+        t = p['t']
+        M = np.eye(n, dtype=complex)
+        M[:2, :2] = [[np.cosh(t), 1j * np.sinh(t)], [-1j * np.sinh(t), np.cosh(t)]]
+        return M
+    if k == 'unsigned_skew':
+        dt = np.dtype(p['itype'])
+        M = np.zeros((n, n), dtype=dt)
+        M[0, 1] = p['v']
+        M[1, 0] = np.iinfo(dt).max - p['v'] + 1       # v + this = 0 modulo 2**bits, but it is not -v
+        return M
+    raise KeyError(k)
+
+
+def run_dtype(ctx, p):
+    import spatialmath.base as base
+    sm = S()
+    M = dtype_array(p)
+    tgt = p['target']
+    sig = dict(api=tgt, defect=p['defect'])
+    preds = {'isR': lambda x: base.isR(x), 'isrot': lambda x: base.isrot(x, check=True), 'ishom': lambda x: base.ishom(x, check=True),
+             'isrot2': lambda x: base.isrot2(x, check=True), 'ishom2': lambda x: base.ishom2(x, check=True),
+             'isskew': base.isskew, 'isskewa': base.isskewa}
+    what = lambda: '%s given a %s %s array %s' % (tgt, p['defect'], M.dtype, core.short(M, 300))
+    if tgt in preds:
+        try:
+            r = preds[tgt](M)
+        except (TypeError, ValueError):
+            r = False        # refusing the element type altogether is a rejection too
+        ctx.judge('predicate', not r, dict(sig, kind='accepts_nonmember'), lambda: '%s returned %r' % (what(), r))
+    else:
+        C = getattr(sm, tgt)
+        try:
+            X = C(M if p.get('form') != 'list' else [M])
+        except Exception:
+            ctx.ok('ctor.reject')
+            ctx.cell('dtype', tgt, p['defect'], 'raises')
+            ctx.nontrivial('dtype', tgt, p['defect'], p.get('itype'), p.get('form'))
+            return
+        d_ = getattr(X, 'data', None)
+        ok = isinstance(d_, list) and all(member_ok(tgt, np.asarray(x, dtype=np.float64) if np.asarray(x).dtype.kind in 'iuf' else np.full(SHAPES[tgt], np.nan)) for x in d_) \
+            if tgt not in ('Twist2', 'Twist3') else False
+        ctx.judge('ctor.reject', ok, dict(sig, kind='object_holds_nonmember'), lambda: '%s returned an object holding %s' % (what(), core.short(d_, 300)))
+    ctx.cell('dtype', tgt, p['defect'])
+    ctx.nontrivial('dtype', tgt, p['defect'], p.get('itype'), p.get('form'))
+
+
+MUTATOR_FORMS = ('append', 'insert', 'setitem', 'setslice', 'extend')
+
+
 def run_objarg(ctx, p):
     """a library object (of any class, holding 1 or 2 values), a list of them, or a degenerate numeric argument handed to a
     constructor: either an exception, or an object every element of which is a member (documented conversions)"""
@@ -247,7 +317,21 @@ def run_objarg(ctx, p):
         ctx.harness_errors.append('objarg operand construction failed: %r' % (e,))
         return
     try:
-        X = C(arg)
+        if p['form'] in MUTATOR_FORMS:
+            # the object handed to a list-mutation method of a valid object of class C: it is refused, or what C then holds are members
+            X = C()
+            if p['form'] == 'append':
+                X.append(obj)
+            elif p['form'] == 'insert':
+                X.insert(0, obj)
+            elif p['form'] == 'setitem':
+                X[0] = obj
+            elif p['form'] == 'setslice':
+                X[0:1] = obj
+            else:
+                X.extend(obj)
+        else:
+            X = C(arg)
     except Exception:
         ctx.ok('ctor.reject')
         ctx.cell('objarg', cname, what_, p.get('other', p.get('defect')), p['form'], 'raises')
@@ -310,7 +394,7 @@ def run_call(ctx, p):
     ctx.nontrivial('call', name, [float('%.6g' % t) for t in v])
 
 
-RUNNERS = {'ctor': run_ctor, 'pred': run_pred, 'scalar': run_scalar, 'objarg': run_objarg, 'call': run_call}
+RUNNERS = {'dtype': run_dtype, 'ctor': run_ctor, 'pred': run_pred, 'scalar': run_scalar, 'objarg': run_objarg, 'call': run_call}
 
 
 def REACH():
@@ -534,6 +618,8 @@ def run(ctx):
                 if defect in ('noise_one', 'noise_all', 'scale', 'lastrow'):
                     break
             p = dict(cls=cname, form=form, good=good, bad=bad, kind=kind, defect=defect, dtype='float32')
+        if rng.random() < 0.25:
+            p['layout'] = gen.LAYOUTS[rng.integers(4)]      # array layouts only: a nested list is not a documented matrix form
         drive(RUNNERS, ctx, 'ctor', p)
         if ctx.ncases % 1499 == 1:
             ctx.sample(dict(case='ctor', **p))
@@ -550,8 +636,9 @@ def run(ctx):
                 if defect2 in ('noise_one', 'noise_all', 'scale', 'lastrow'):
                     a, defect, dt = a2, defect2, 'float32'
                     break
+        lay = gen.LAYOUTS[rng.integers(4)] if rng.random() < 0.25 else None
         for name in PRED_FOR[kind]:
-            drive(RUNNERS, ctx, 'pred', dict(pred=name, kind=kind, a=a, defect=defect, src=src, dtype=dt))
+            drive(RUNNERS, ctx, 'pred', dict(pred=name, kind=kind, a=a, defect=defect, src=src, dtype=dt, layout=lay))
     for _ in range(ctx.scale(800, 12000)):
         dim = int(rng.integers(2, 4))
         good, bad, defect = twist_matrix(rng, dim)
@@ -560,6 +647,21 @@ def run(ctx):
                                          defect='none' if valid else defect, src='ref'))
     for _ in range(ctx.scale(3500, 50000)):
         drive(RUNNERS, ctx, 'scalar', scalar_case(rng))
+    for _ in range(ctx.scale(300, 6000)):
+        defect = ['int_wrap', 'complex_orthogonal', 'unsigned_skew'][rng.integers(3)]
+        if defect == 'unsigned_skew':
+            tgt = ['isskew', 'isskewa', 'Twist2', 'Twist3'][rng.integers(4)]
+            n = {'isskew': int(rng.integers(2, 4)), 'isskewa': int(rng.integers(3, 5)), 'Twist2': 3, 'Twist3': 4}[tgt]
+            p = dict(target=tgt, defect=defect, n=n, itype=['uint8', 'uint16', 'uint32', 'uint64'][rng.integers(4)], v=int(rng.integers(1, 100)))
+        else:
+            tgt = ['isR', 'isrot', 'ishom', 'isrot2', 'ishom2', 'SO2', 'SE2', 'SO3', 'SE3'][rng.integers(9)]
+            n = {'isR': int(rng.integers(2, 4)), 'isrot': 3, 'ishom': 4, 'isrot2': 2, 'ishom2': 3, 'SO2': 2, 'SE2': 3, 'SO3': 3, 'SE3': 4}[tgt]
+            p = dict(target=tgt, defect=defect, n=n, form=['bare', 'list'][rng.integers(2)])
+            if defect == 'int_wrap':
+                p.update(itype=['int8', 'int16', 'int32', 'int64', 'uint8', 'uint64'][rng.integers(6)], where=[0, 1])
+            else:
+                p.update(t=float(rng.uniform(0.1, 2.0)))
+        drive(RUNNERS, ctx, 'dtype', p)
     k = 0
     for name in CALLS():
         for _ in range(3 if ctx.tier == 'quick' else 40):
@@ -569,7 +671,7 @@ def run(ctx):
     for cname in SHAPES:
         for d in C10 + X10:
             for nvals in (1, 2):
-                for form in ('bare', 'list'):
+                for form in ('bare', 'list') + (MUTATOR_FORMS if d != cname else ()):
                     k += 1
                     if not ctx.mine(k):
                         continue
